@@ -382,10 +382,22 @@ func c20c(c *Ctx) {
 					continue
 				}
 				if call, ok := r.Results[len(r.Results)-1].(*ssa.Call); ok && calleeName(call) == c.W.ModPath+"/parser.NewRangeParseError" {
-					errOK = true
+					// from the 'case' keyword of the duplicate to where the parser stands
+					startsAtCase := false
+					if ld, isLd := call.Call.Args[0].(*ssa.UnOp); isLd {
+						for _, l := range c.mustLits(fn, ld.Block()) {
+							if strings.HasPrefix(l, "+($0.curToken") && strings.HasSuffix(l, `.Type == "CASE")`) {
+								startsAtCase = true
+							}
+						}
+					}
+					endsAtCur := stripLoopTags(c.term(fn, call.Call.Args[1])) == "$0.curToken" || strings.HasSuffix(c.term(fn, call.Call.Args[1]), "$0.curToken)")
+					if startsAtCase && endsAtCur {
+						errOK = true
+					}
 				}
 			}
-			c.Check(errOK, name+"/duplicate-case/error", c.W.Pos(mu.Pos()), "duplicate case returns a located range error", "no located error return on the duplicate-case path")
+			c.Check(errOK, name+"/duplicate-case/error", c.W.Pos(mu.Pos()), "duplicate case returns a range error from its 'case' keyword to the current token", "the duplicate-case error is not a range error that starts at the 'case' keyword of the duplicate and ends at the current token")
 		})
 		if n != 1 {
 			c.Bad(name+"/duplicate-case/site", c.W.FuncPos(fn), fmt.Sprintf("expected one seen-set insertion, found %d", n))
@@ -529,6 +541,22 @@ func c20d(c *Ctx) {
 				} else {
 					c.OK(name+"/text-names/every-text", pos, "every text is entered into the name set")
 				}
+				// the clash is reported at one of the two texts involved
+				{
+					okLoc, got := false, ""
+					for _, r := range returnsOf(f) {
+						if isSuccessReturn(r) || !hasLit(c.mustLits(f, r.Block()), "+"+mapT+"["+key+"]#1") {
+							continue
+						}
+						if call, ok := r.Results[len(r.Results)-1].(*ssa.Call); ok && len(call.Call.Args) > 0 {
+							got = c.term(f, call.Call.Args[0])
+							if strings.HasSuffix(key, ".Name") && got == strings.TrimSuffix(key, ".Name")+".Token" {
+								okLoc = true
+							}
+						}
+					}
+					c.Check(okLoc, name+"/text-names/error-at-the-text", pos, "a text name clash is reported at the text whose name is taken", "the text name clash error is located at "+pretty(got)+", expected the token of the text whose name was looked up")
+				}
 				c.Check(!bypass, name+"/text-names/not-bypassed", pos, "no successful return without the text clash check", "ParseProgram can return successfully without having run the text name clash check (whether a clash is reported would depend on what else is in the file)")
 				c.Check(after, name+"/text-names/after-hoisting", pos, "the clash check runs after all statements were parsed (all hoisted texts exist)", "the text clash check can run before parsing is complete")
 				okInline, okExplicit := false, false
@@ -537,7 +565,7 @@ func c20d(c *Ctx) {
 					if strings.Contains(v, "$0.inlineTexts") && canReach(st, at) {
 						okInline = true
 					}
-					if strings.Contains(v, "new#") && strings.Contains(v, "ast.Text") {
+					if strings.Contains(v, "new#") && strings.Contains(v, "ast.Text") && canReach(st, at) && !canReach(at, st) {
 						okExplicit = true
 					}
 				}
